@@ -147,6 +147,15 @@ def execute_rows(ctx: Ctx, rows):
                     ok = False
                 if ok != bool(row["sigeq"]):
                     bad("sicmp|refusal", f"SI[{row['a']}] {opname} SI[{row['b']}]: accepted={ok}, signatures equal={row['sigeq']}", row)
+            if row["same"]:
+                # non-finite SI values: the six comparisons are those of the SI floats (IEEE: every ordering with NaN is False)
+                nan, inf = float("nan"), float("inf")
+                for x, y in ((nan, 1.0), (1.0, nan), (nan, nan), (inf, inf), (-inf, inf), (inf, 1.0)):
+                    qx, qy = A(x), A(y)
+                    for opname, fn in (("<", lambda p, q_: p < q_), ("<=", lambda p, q_: p <= q_), (">", lambda p, q_: p > q_), (">=", lambda p, q_: p >= q_),
+                                       ("==", lambda p, q_: p == q_), ("!=", lambda p, q_: p != q_)):
+                        if bool(fn(qx, qy)) != fn(x, y):
+                            bad("cmp|value", f"{row['a']}({x!r}) {opname} {row['a']}({y!r}) -> {fn(qx, qy)}, the SI floats give {fn(x, y)}", row)
             if (a == b) != (bool(row["same"]) and float(a) == float(b)) or (a != b) == (a == b):
                 bad("eq", f"{row['a']} == {row['b']} -> {a == b}", row)
             # numbers
